@@ -2,6 +2,12 @@
 
 package svg
 
+import (
+	"math"
+
+	"github.com/benoitkugler/webrender/matrix"
+)
+
 // Contracts for the deductive verifier in /verif (build tag verif: not compiled
 // into normal builds). Oracles: SVG 1.1 §8.3 (path data), §7.6 (transform attribute),
 // §7.8 (preserveAspectRatio); properties C07, C17, C18.
@@ -255,3 +261,60 @@ func vBez3(p0, p1, p2, p3, t Fl) Fl {
 //@   modifies *c, c.points[..], c.path[..]
 //@   loop 1 invariant -1 <= lastIndex && lastIndex <= rangeindex && rangeindex < len(data) && fresh(data) && (fresh(c.path) || samebase(c.path, old(c.path))) && (fresh(c.points) || samebase(c.points, old(c.points)))
 //@   loop 1 decreases len(data) - rangeindex
+
+// ---------------------------------------------------------------------------
+// transform attribute (SVG 1.1 §7.6)
+
+// unit resolution is a function of the value, the font size and the percentage reference
+//@ func (Value).Resolve
+//@   props C17
+//@   pure
+//@   ensures v.U == Px || v.U == 0 ==> result == v.V
+//@   ensures v.U == Perc ==> result == v.V * percentageReference / 100
+//@   ensures v.U == Em || v.U == Rem ==> result == v.V * fontSize
+
+// vSvgMat: the matrix SVG assigns to one transform function, angles in degrees;
+// rotate(a, x, y) = translate(x, y) rotate(a) translate(-x, -y); skewX/skewY are stored
+// as skew(ax, 0) / skew(0, ay).
+func vSvgMat(tr transform, fs, d Fl) matrix.Transform {
+	a0, a1, a2 := tr.args[0].Resolve(fs, d), tr.args[1].Resolve(fs, d), tr.args[2].Resolve(fs, d)
+	switch tr.kind {
+	case rotate:
+		return matrix.Rotation(a0 * math.Pi / 180)
+	case rotateWithOrigin:
+		return matrix.Mul(matrix.Mul(matrix.Translation(a1, a2), matrix.Rotation(a0*math.Pi/180)), matrix.Translation(-a1, -a2))
+	case translate:
+		return matrix.Translation(a0, a1)
+	case skew:
+		return matrix.Transform{A: 1, B: Fl(math.Tan(float64(a1 * math.Pi / 180))), C: Fl(math.Tan(float64(a0 * math.Pi / 180))), D: 1}
+	case scale:
+		return matrix.Scaling(a0, a1)
+	case customMatrix:
+		return matrix.New(a0, a1, a2, tr.args[3].Resolve(fs, d), tr.args[4].Resolve(fs, d), tr.args[5].Resolve(fs, d))
+	}
+	return matrix.Identity()
+}
+
+// applying a transform right-multiplies the current matrix by the specified matrix
+//@ func (transform).applyTo
+//@   props C17
+//@   requires mat != nil
+//@   modifies *mat
+//@   ensures[rotate] tr.kind == rotate ==> *mat == matrix.Mul(old(*mat), vSvgMat(tr, fontSize, diagonal))
+//@   ensures[rotate-origin] tr.kind == rotateWithOrigin ==> *mat == matrix.Mul(old(*mat), vSvgMat(tr, fontSize, diagonal))
+//@   ensures[translate] tr.kind == translate ==> *mat == matrix.Mul(old(*mat), vSvgMat(tr, fontSize, diagonal))
+//@   ensures[skew] tr.kind == skew ==> *mat == matrix.Mul(old(*mat), vSvgMat(tr, fontSize, diagonal))
+//@   ensures[scale] tr.kind == scale ==> *mat == matrix.Mul(old(*mat), vSvgMat(tr, fontSize, diagonal))
+//@   ensures[matrix] tr.kind == customMatrix ==> *mat == matrix.Mul(old(*mat), vSvgMat(tr, fontSize, diagonal))
+//@   ensures[other] tr.kind == 0 || tr.kind > customMatrix ==> *mat == old(*mat)
+
+// a transform list is the left-to-right product of its functions: the matrix starts as
+// the identity and each function, in list order, right-multiplies it (applyTo contract);
+// stated in closed form for the empty list.
+//@ func aggregateTransforms
+//@   props C17
+//@   modifies nothing
+//@   ensures len(transforms) == 0 ==> result == matrix.Identity()
+//@   loop 1 invariant rangeindex < len(transforms)
+//@   loop 1 invariant rangeindex == -1 ==> mat == matrix.Identity()
+//@   loop 1 decreases len(transforms) - rangeindex
